@@ -75,6 +75,19 @@ def _gen_src(rng):
     if rows["item"] and rng.random() < 0.25:
         i = rng.randrange(len(rows["item"]))
         rows["item"].insert(i, list(rows["item"][i]))      # genuine adjacent duplicate
+    # non-key integer fields written in a spelling other than the canonical one: a copy must keep
+    # the stored text (choices from a generator of their own)
+    import random
+    lrng = random.Random(repr(sorted((k, v) for k, v in rows.items())))
+    if lrng.random() < 0.3:
+        for name, col in (("item", 3), ("item", 2), ("parse", 3)):
+            for r_ in rows.get(name, []):
+                if col < len(r_) and r_[col] not in (None, "") and lrng.random() < 0.5:
+                    try:
+                        z = int(r_[col])
+                    except ValueError:
+                        continue
+                    r_[col] = lrng.choice(["%03d" % z if z >= 0 else str(z), "+%d" % z if z >= 0 else str(z)])
     src = []
     for name, fs in SCHEMA:
         r = rng.random()
